@@ -8,6 +8,7 @@ import (
 
 	"aaverif/internal/plan"
 	"aaverif/internal/ref"
+	"aaverif/internal/rng"
 )
 
 // Judges for concurrentSmoke: each per-function monitor judges, under
@@ -92,6 +93,42 @@ func (e *Env) smokeListWords(ambiguous *counter) func(*plan.Op, *plan.Res) strin
 		}
 		return ""
 	}
+}
+
+// C09: the size rule. A pool of generating calls with accepted and rejected sizes and counts.
+func (e *Env) smokeSizeRule() func(*plan.Op, *plan.Res) string {
+	return func(op *plan.Op, r *plan.Res) string {
+		var ok bool
+		var sentinel string
+		switch {
+		case op.Fn == "enc":
+			ok, sentinel = validEntLen(len(op.Entropy())) && !op.ENil, "entlen"
+		case op.Fn == "new" && op.Src == nil && !op.Shared:
+			ok, sentinel = validCount64(op.N), "wordlen"
+		default:
+			return ""
+		}
+		out := string(unhex(r.Out))
+		switch {
+		case ok && (r.Err != nil || out == ""):
+			return fmt.Sprintf("under concurrency %s with an accepted size (%d/%d) returned %s and err=%s", fnName(op.Fn), len(op.Entropy()), op.N, preview(out), errText(r.Err))
+		case !ok && (errClassOf(r.Err) != sentinel || out != ""):
+			return fmt.Sprintf("under concurrency %s with a rejected size (%d/%d) returned %s and error class %s (%s)", fnName(op.Fn), len(op.Entropy()), op.N, preview(out), errClassOf(r.Err), errText(r.Err))
+		}
+		return ""
+	}
+}
+
+func (e *Env) sizeRulePool(label string) []plan.Op {
+	r := rng.New(e.Seed, label+"-sizepool")
+	var pool []plan.Op
+	for k, n := range []int{16, 20, 24, 28, 32, 0, 15, 17, 31, 33, 64, 12} {
+		pool = append(pool, plan.Op{Fn: "enc", L: int64(k % ref.NLang), E: hx(r.Bytes(n))})
+	}
+	for k, c := range []int64{12, 15, 18, 21, 24, 0, -12, 11, 13, 25, 27, 36, 1 << 32, 12 + 1<<59} {
+		pool = append(pool, plan.Op{Fn: "new", L: int64((k * 3) % ref.NLang), N: c})
+	}
+	return pool
 }
 
 // C03: an accepted string is reference-valid; IsMnemonicValid agrees with CheckMnemonic.
